@@ -77,6 +77,19 @@ def _fn_sir():
     return {"coq": text, "translated": done, "refused": failed}
 
 
+@unit("fn_cli")
+def _fn_cli():
+    import os
+
+    sys.path.insert(0, os.path.dirname(os.path.abspath(__file__)))
+    import translate
+    import netconan.netconan as pm
+
+    # the argument parser and anonymize_files are left uninterpreted (calls of the py_call parameter)
+    text, done, failed = translate.translate_module(pm.__file__, pm, wanted=["main"], oracles=("_parse_args", "anonymize_files"))
+    return {"coq": text, "translated": done, "refused": failed}
+
+
 @unit("cli_consts")
 def _cli_consts():
     from netconan import netconan as nn
